@@ -312,7 +312,7 @@ fn main() {
             dbd = gen_db(&mut r, 3, 4);
             let t = r.below(3) as usize;
             // (1100 rows: above the parallel scan-filter threshold of views / CTEs on machines with 8+ cores)
-            let n = *r.pick(&[100usize, 101, 128, 129, 200, 256, 300, 1100, 1100, 1300]);
+            let n = *r.pick(&[100usize, 128, 129, 200, 256, 300, 1100, 1100, 1100, 1300, 1300]);
             dbd.tables[t].rows = gen_rows(&mut r, &dbd.tables[t].schema, n);
             body = Core { from: From::Table(t), where_: None, group: None, select: (0..dbd.tables[t].schema.cols.len()).map(E::Col).collect(), distinct: false, order_by: vec![], limit: None, offset: 0 };
             star = if r.chance(1, 2) { Some(t) } else { None };
@@ -353,7 +353,7 @@ fn main() {
         }
         let og = QGen { db: &db2, subqueries: false, force_from: Some(outer_from) };
         c.outer = og.gen_core(&mut r, true);
-        if large && r.chance(1, 2) {
+        if large && r.chance(if c.dbd.tables.iter().any(|t| t.rows.len() >= 1000) { 1 } else { 2 }, 3) {
             if let From::Table(t) = c.body.from {
                 let probe = TableDef { schema: db2.tables[3].schema.clone(), rows: c.dbd.tables[t].rows.clone() };
                 c.outer.where_ = Some(Pred::Ex(simple_pred_tree(&mut r, &probe)));
